@@ -1227,4 +1227,312 @@ theorem ev_fire (cfg : Cfg) (m : MSt) (st : St) (k : Nat) (r : Res) (hrel : Rel 
       refine ⟨e3, e4, e5, by rw [← hrel.fails]; exact e1, rfl, ?_, e6⟩
       exact setReq_map hsr k _ _ (fun q => rfl)
 
+theorem closeBc_ok11 (l : List Nat) : (l.map Act.closeBc).all Act.ok11 = true := by
+  simp [List.all_map, Function.comp_def, Act.ok11]
+
+theorem closeBc_noDisc (l : List Nat) : (l.map Act.closeBc).all Act.notDisc = true := by
+  simp [List.all_map, Function.comp_def, Act.notDisc]
+
+/-- a reply from the network to an unresolved request: the monitor resolved it at the event; the model now
+    releases the timer and runs the callbacks -/
+theorem fire_pending_rel (cfg : Cfg) (h0 : 0 ≤ cfg.timeout) (h1 : 0 ≤ cfg.retryDelay) (st : St) (k : Nat) (r : Res) (q : Req) (m1 : MSt)
+    (hinv : SInv st) (hq : reqGet st k = some q) (hp : q.pending = true)
+    (hreqs : m1.reqs = (setReq st k (fun x => { x with pending := false })).reqs.map toM) (hnow : m1.now = st.now)
+    (howed : m1.owedDisc = []) (hfails : m1.fails = []) (hseen : ∀ x ∈ st.srtcs, (x.g, x.minTimeout) ∈ m1.seen)
+    (hna : ¬ IsAdv m1) (hf : Ob.badOp "fuel" ∉ (runActs cfg fuel st [.fireReq k r false] []).2) :
+    Rel cfg (runActs cfg fuel st [.fireReq k r false] []).1 [] ((runActs cfg fuel st [.fireReq k r false] []).2.foldl (stepOb cfg) m1) := by
+  have hfu : fuel = 99999 + 1 := rfl
+  have hinv' := exec_fireReq cfg st k r false hinv
+  rw [hfu] at hf ⊢
+  simp only [runActs, List.append_nil, List.nil_append] at hf ⊢
+  have hgm : getReq m1 k = some (toM { q with pending := false }) := by
+    rw [getReq_map hreqs]
+    have := reqGet_setReq (fun x => { x with pending := false }) hq (fun _ => rfl)
+    unfold reqGet at this
+    rw [this]; rfl
+  -- the relation after the first action
+  have hrel1 : Rel cfg (exec cfg st (.fireReq k r false)).1 (exec cfg st (.fireReq k r false)).2.2
+      ((exec cfg st (.fireReq k r false)).2.1.foldl (stepOb cfg) m1) ∧
+      (exec cfg st (.fireReq k r false)).2.2.all Act.ok11 = true := by
+    simp only [exec, hq, hp, Bool.not_true, Bool.false_eq_true, if_false, List.nil_append]
+    have hsk : ∀ (s' : St), srtcKeys s' = srtcKeys st → ∀ x ∈ s'.srtcs, (x.g, x.minTimeout) ∈ m1.seen := by
+      intro s' hs x hx
+      have : (x.g, x.minTimeout) ∈ srtcKeys st := by rw [← hs]; exact mem_srtcKeys.mpr ⟨x, hx, rfl⟩
+      obtain ⟨y, hy, hyx⟩ := mem_srtcKeys.mp this
+      rw [← hyx]; exact hseen y hy
+    split
+    · simp only [List.foldl_cons, List.foldl_nil, resolved_cancelTimer cfg m1 k _ hgm rfl]
+      refine ⟨⟨by show m1.reqs = _; rw [hreqs, reqDone_reqs]; rfl, by show m1.now = _; rw [hnow, reqDone_now]; rfl,
+        by show m1.owedDisc.Perm _; rw [howed, stackDisc_nil_of_all (reqDone_noDisc _ _ _ _)],
+        by rw [stackDisc_nil_of_all (reqDone_noDisc _ _ _ _)]; intro hh; exact absurd rfl hh,
+        hsk _ (by rw [srtcKeys_reqDone]; rfl), hfails⟩, reqDone_ok11 _ _ _ _⟩
+    · simp only [List.foldl_nil]
+      refine ⟨⟨by rw [hreqs, reqDone_reqs], by rw [hnow, reqDone_now]; rfl,
+        by rw [howed, stackDisc_nil_of_all (reqDone_noDisc _ _ _ _)],
+        by rw [stackDisc_nil_of_all (reqDone_noDisc _ _ _ _)]; intro hh; exact absurd rfl hh,
+        hsk _ (by rw [srtcKeys_reqDone]; rfl), hfails⟩, reqDone_ok11 _ _ _ _⟩
+  have hna' : ¬ IsAdv ((exec cfg st (.fireReq k r false)).2.1.foldl (stepOb cfg) m1) := by
+    rintro ⟨dt, hdt⟩; exact hna ⟨dt, by rw [← (foldl_frame cfg _ m1).1]; exact hdt⟩
+  obtain ⟨new, hnew, hr⟩ := runActs_rel cfg h0 h1 99999 _ _ (exec cfg st (.fireReq k r false)).2.1 _ hinv' hrel1.1 hrel1.2
+    (fun ha => absurd ha hna') hf
+  rw [hnew, List.foldl_append]
+  exact hr
+
+/-- the monitor accepts one step of the model and ends related to the state after it -/
+theorem step_core (cfg : Cfg) (h0 : 0 ≤ cfg.timeout) (h1 : 0 ≤ cfg.retryDelay) (st : St) (env : Env) (e : Ev) (m : MSt)
+    (hI : StepInv cfg st m) (hfuel : Ob.badOp "fuel" ∉ (step cfg st env e).2) :
+    Rel cfg (step cfg st env e).1 [] ((step cfg st env e).2.foldl (stepOb cfg) (stepItem cfg m (.ev e))) ∧
+    LateOk ((step cfg st env e).2.foldl (stepOb cfg) (stepItem cfg m (.ev e))) := by
+  have howed : m.owedDisc = [] := List.Perm.eq_nil (by simpa [stackDisc] using hI.rel.owed)
+  have hI' : StepInv cfg ({ st with env := env } : St) m := ⟨hI.rel.plain (obs := []) (by simp) rfl rfl rfl rfl, hI.inv, hI.nover, hI.late⟩
+  have seenOf : ∀ {m1 : MSt}, m1.seen = m.seen → ∀ x ∈ st.srtcs, (x.g, x.minTimeout) ∈ m1.seen :=
+    fun hs x hx => by rw [hs]; exact hI.rel.seen x hx
+  cases e
+  case load o topics =>
+    have ec := ev_core cfg m (.load o topics) howed hI.late trivial
+    revert hfuel; simp only [step]; intro hf
+    exact classA cfg h0 h1 hI' ec.reqs ec.now ec.owed ec.fails ec.late (not_isAdv_of_cur ec.cur (by intro dt h; cases h))
+      _ _ _ rfl rfl rfl (seenOf ec.seen) (by simp [Act.ok11]) (by simp [Act.notDisc]) (by simp) hf
+  case send o keys group foe expect =>
+    have ec := ev_core cfg m (.send o keys group foe expect) howed hI.late trivial
+    revert hfuel; simp only [step]
+    split
+    · intro hf
+      exact classA cfg h0 h1 hI' ec.reqs ec.now ec.owed ec.fails ec.late (not_isAdv_of_cur ec.cur (by intro dt h; cases h))
+        _ _ _ rfl rfl rfl (seenOf ec.seen) (by simp [Act.ok11]) (by simp [Act.notDisc]) (by simp) hf
+    · split
+      · intro hf
+        exact classA cfg h0 h1 hI' ec.reqs ec.now ec.owed ec.fails ec.late (not_isAdv_of_cur ec.cur (by intro dt h; cases h))
+          _ _ _ rfl rfl rfl (seenOf ec.seen) (by simp [Act.ok11]) (by simp [Act.notDisc]) (by simp) hf
+      · intro hf
+        exact classA cfg h0 h1 hI' ec.reqs ec.now ec.owed ec.fails ec.late (not_isAdv_of_cur ec.cur (by intro dt h; cases h))
+          _ _ _ rfl rfl rfl (seenOf ec.seen) (by simp [Act.ok11]) (by simp [Act.notDisc]) (by simp) hf
+  case cload o g =>
+    have ec := ev_core cfg m (.cload o g) howed hI.late trivial
+    revert hfuel; simp only [step]; intro hf
+    obtain ⟨c1, c2, c3, c4⟩ := cloadJoin_frame ({ st with env := env, liveOps := st.liveOps ++ [o] } : St) (.api o) g
+    exact classA cfg h0 h1 hI' ec.reqs ec.now ec.owed ec.fails ec.late (not_isAdv_of_cur ec.cur (by intro dt h; cases h))
+      _ _ _ c1 c2 c3 (by rw [c4]; exact seenOf ec.seen) (cloadJoin_ok11 _ _ _) (cloadJoin_noDisc _ _ _) (by simp) hf
+  case ltp o topics =>
+    have ec := ev_core cfg m (.ltp o topics) howed hI.late trivial
+    revert hfuel; simp only [step]; intro hf
+    exact classA cfg h0 h1 hI' ec.reqs ec.now ec.owed ec.fails ec.late (not_isAdv_of_cur ec.cur (by intro dt h; cases h))
+      _ _ _ rfl rfl rfl (seenOf ec.seen) (by simp [Act.ok11]) (by simp [Act.notDisc]) (by simp) hf
+  case cancel o =>
+    have ec := ev_core cfg m (.cancel o) howed hI.late trivial
+    revert hfuel; simp only [step]; intro hf
+    obtain ⟨c1, c2, c3, c4, c5, c6, c7⟩ := cancelOp_facts ({ st with env := env } : St) o
+    refine classA cfg h0 h1 hI' ec.reqs ec.now ec.owed ec.fails ec.late (not_isAdv_of_cur ec.cur (by intro dt h; cases h))
+      _ _ _ c1 c2 c3 ?_ c6 c7 c5 hf
+    intro x hx
+    have : (x.g, x.minTimeout) ∈ srtcKeys ({ st with env := env } : St) := by rw [← c4]; exact mem_srtcKeys.mpr ⟨x, hx, rfl⟩
+    obtain ⟨y, hy, hyx⟩ := mem_srtcKeys.mp this
+    rw [← hyx]; exact seenOf ec.seen y hy
+  case close o =>
+    have ec := ev_core cfg m (.close o) howed hI.late trivial
+    revert hfuel; simp only [step]
+    split
+    · split
+      · intro hf
+        exact classA cfg h0 h1 hI' ec.reqs ec.now ec.owed ec.fails ec.late (not_isAdv_of_cur ec.cur (by intro dt h; cases h))
+          _ _ _ rfl rfl rfl (seenOf ec.seen) (by simp [Act.ok11]) (by simp [Act.notDisc]) (by simp) hf
+      · intro _
+        have hr : Rel cfg ({ st with env := env } : St) [] (stepItem cfg m (.ev (.close o))) :=
+          hI'.rel.start rfl rfl ec.reqs ec.now ec.owed ec.fails (seenOf ec.seen) rfl
+        refine ⟨hr.plain (by simp [Ob.rel11]) rfl rfl rfl rfl, lateOk_of_none ?_⟩
+        rw [(foldl_frame cfg _ _).2.2.2]; exact ec.late
+    · intro hf
+      exact classA cfg h0 h1 hI' ec.reqs ec.now ec.owed ec.fails ec.late (not_isAdv_of_cur ec.cur (by intro dt h; cases h))
+        _ _ _ rfl rfl rfl (seenOf ec.seen)
+        (by rw [List.all_append, List.all_append, List.all_append, closeBc_ok11]; cases Consts.clientCloseWakesRetryDelays <;> simp [Act.ok11])
+        (by rw [List.all_append, List.all_append, List.all_append, closeBc_noDisc]; cases Consts.clientCloseWakesRetryDelays <;> simp [Act.notDisc]) (by simp) hf
+  case down b =>
+    have ec := ev_core cfg m (.down b) howed hI.late trivial
+    revert hfuel; simp only [step]; intro hf
+    exact classA cfg h0 h1 hI' ec.reqs ec.now ec.owed ec.fails ec.late (not_isAdv_of_cur ec.cur (by intro dt h; cases h))
+      _ _ _ rfl rfl rfl (seenOf ec.seen) (by simp [Act.ok11]) (by simp [Act.notDisc]) (by simp) hf
+  case bootReply j p =>
+    have ec := ev_core cfg m (.bootReply j p) howed hI.late trivial
+    revert hfuel; simp only [step]; intro hf
+    exact classA cfg h0 h1 hI' ec.reqs ec.now ec.owed ec.fails ec.late (not_isAdv_of_cur ec.cur (by intro dt h; cases h))
+      _ _ _ rfl rfl rfl (seenOf ec.seen) (by simp [Act.ok11]) (by simp [Act.notDisc]) (by simp) hf
+  case bootLost j =>
+    have ec := ev_core cfg m (.bootLost j) howed hI.late trivial
+    revert hfuel; simp only [step]; intro hf
+    exact classA cfg h0 h1 hI' ec.reqs ec.now ec.owed ec.fails ec.late (not_isAdv_of_cur ec.cur (by intro dt h; cases h))
+      _ _ _ rfl rfl rfl (seenOf ec.seen) (by simp [Act.ok11]) (by simp [Act.notDisc]) (by simp) hf
+  case bootFail j =>
+    have ec := ev_core cfg m (.bootFail j) howed hI.late trivial
+    have hr : Rel cfg ({ st with env := env } : St) [] (stepItem cfg m (.ev (.bootFail j))) :=
+      hI'.rel.start rfl rfl ec.reqs ec.now ec.owed ec.fails (seenOf ec.seen) rfl
+    revert hfuel; simp only [step]
+    split
+    · intro _
+      refine ⟨hr.plain (by simp [Ob.rel11]) rfl rfl rfl rfl, lateOk_of_none ?_⟩
+      rw [(foldl_frame cfg _ _).2.2.2]; exact ec.late
+    · intro hf
+      exact classA cfg h0 h1 hI' ec.reqs ec.now ec.owed ec.fails ec.late (not_isAdv_of_cur ec.cur (by intro dt h; cases h))
+        _ _ _ rfl rfl rfl (seenOf ec.seen) (by simp [Act.ok11]) (by simp [Act.notDisc]) (by simp) hf
+  case bootOk j =>
+    have ec := ev_core cfg m (.bootOk j) howed hI.late trivial
+    have hr : Rel cfg ({ st with env := env } : St) [] (stepItem cfg m (.ev (.bootOk j))) :=
+      hI'.rel.start rfl rfl ec.reqs ec.now ec.owed ec.fails (seenOf ec.seen) rfl
+    simp only [step]
+    split
+    · refine ⟨hr.plain (by simp [Ob.rel11]) rfl rfl rfl rfl, lateOk_of_none ?_⟩
+      rw [(foldl_frame cfg _ _).2.2.2]; exact ec.late
+    · refine ⟨hr.plain (by simp [Ob.rel11]) rfl rfl rfl rfl, lateOk_of_none ?_⟩
+      rw [(foldl_frame cfg _ _).2.2.2]; exact ec.late
+  case conn b v =>
+    have ec := ev_core cfg m (.conn b v) howed hI.late trivial
+    have hr : Rel cfg ({ st with env := env } : St) [] (stepItem cfg m (.ev (.conn b v))) :=
+      hI'.rel.start rfl rfl ec.reqs ec.now ec.owed ec.fails (seenOf ec.seen) rfl
+    simp only [step]
+    exact ⟨hr.plain (obs := []) (by simp) rfl rfl rfl rfl, lateOk_of_none ec.late⟩
+  case resetTopics ts =>
+    have ec := ev_core cfg m (.resetTopics ts) howed hI.late trivial
+    have hr : Rel cfg ({ st with env := env } : St) [] (stepItem cfg m (.ev (.resetTopics ts))) :=
+      hI'.rel.start rfl rfl ec.reqs ec.now ec.owed ec.fails (seenOf ec.seen) rfl
+    simp only [step]
+    exact ⟨hr.plain (obs := []) (by simp) rfl rfl rfl rfl, lateOk_of_none ec.late⟩
+  case srtc o g mt =>
+    obtain ⟨e1, e2, e3, e4, e5, e6⟩ := endStep_core m howed hI.late
+    have hna : ¬ IsAdv (stepItem cfg m (.ev (.srtc o g mt))) :=
+      not_isAdv_of_cur (e := .srtc o g mt) rfl (by intro dt h; cases h)
+    have hseen : ∀ x ∈ st.srtcs ++ [({ r := st.srtcs.length, o := o, g := g, minTimeout := mt, phase := .resolving } : Srtc)],
+        (x.g, x.minTimeout) ∈ (stepItem cfg m (.ev (.srtc o g mt))).seen := by
+      intro x hx
+      show (x.g, x.minTimeout) ∈ (endStep m).seen ++ [(g, mt)]
+      rcases List.mem_append.mp hx with hx | hx
+      · rw [e4]; exact List.mem_append_left _ (hI.rel.seen x hx)
+      · simp only [List.mem_singleton] at hx; subst hx; simp
+    revert hfuel; simp only [step]
+    split
+    · intro hf
+      exact classA cfg h0 h1 hI' (m1 := stepItem cfg m (.ev (.srtc o g mt))) e2 e3 e5 e1 e6 hna
+        _ _ _ rfl rfl rfl hseen (by simp [Act.ok11]) (by simp [Act.notDisc]) (by simp) hf
+    · intro hf
+      refine classA cfg h0 h1 hI' (m1 := stepItem cfg m (.ev (.srtc o g mt))) e2 e3 e5 e1 e6 hna
+        _ _ _ ?_ ?_ ?_ ?_ (cloadJoin_ok11 _ _ _) (cloadJoin_noDisc _ _ _) (by simp) hf
+      · exact (cloadJoin_frame _ _ _).1
+      · exact (cloadJoin_frame _ _ _).2.1
+      · exact (cloadJoin_frame _ _ _).2.2.1
+      · rw [(cloadJoin_frame _ _ _).2.2.2]; exact hseen
+  case advance dt =>
+    obtain ⟨e1, e2, e3, e4, e5, e6⟩ := endStep_core m howed hI.late
+    by_cases hdt : dt < 0
+    · have hm1 : stepItem cfg m (.ev (.advance dt)) = { endStep m with cur := some (.advance dt), nobs := 0 } := by
+        simp only [stepItem, hdt, if_true]
+      have hr : Rel cfg ({ st with env := env } : St) [] (stepItem cfg m (.ev (.advance dt))) := by
+        rw [hm1]; exact hI'.rel.start rfl rfl e2 e3 e5 e1 (fun x hx => by show _ ∈ (endStep m).seen; rw [e4]; exact hI.rel.seen x hx) rfl
+      simp only [step, hdt, if_true]
+      refine ⟨hr.plain (by simp [Ob.rel11]) rfl rfl rfl rfl, lateOk_of_none ?_⟩
+      rw [(foldl_frame cfg _ _).2.2.2, hm1]; exact e6
+    · have hm1 : stepItem cfg m (.ev (.advance dt)) =
+          { endStep m with cur := some (.advance dt), nobs := 0, now := (endStep m).now + dt } := by
+        simp only [stepItem, hdt, if_false]
+      have hr : Rel cfg ({ st with env := env, now := st.now + dt } : St) [] (stepItem cfg m (.ev (.advance dt))) := by
+        rw [hm1]
+        refine ⟨by show (endStep m).reqs = _; rw [e2]; exact hI.rel.reqs, by show (endStep m).now + dt = st.now + dt; rw [e3, hI.rel.now],
+          by show (endStep m).owedDisc.Perm _; rw [e5]; exact List.Perm.refl _, by intro hh; exact absurd rfl hh,
+          fun x hx => by show _ ∈ (endStep m).seen; rw [e4]; exact hI.rel.seen x hx, by show (endStep m).fails = []; rw [e1]; exact hI.rel.fails⟩
+      have hadv : IsAdv (stepItem cfg m (.ev (.advance dt))) := ⟨dt, by rw [hm1]⟩
+      revert hfuel; simp only [step, hdt, if_false]; intro hf
+      obtain ⟨new, hnew, hrr⟩ := fireDue_rel cfg h0 h1 _ ({ st with env := env, now := st.now + dt } : St) [] _ hI.inv hr hadv hf
+      rw [hnew, List.nil_append]
+      refine ⟨hrr, lateOk_of_none ?_⟩
+      rw [(foldl_frame cfg _ _).2.2.2, hm1]; exact e6
+  case fire k r =>
+    obtain ⟨f1, f2, f3, f4, f5, f6⟩ := ev_fire cfg m ({ st with env := env } : St) k r hI'.rel hI.late
+    have hna : ¬ IsAdv (stepItem cfg m (.ev (.fire k r))) := not_isAdv_of_cur f5 (by intro dt h; cases h)
+    have hseen : ∀ x ∈ st.srtcs, (x.g, x.minTimeout) ∈ (stepItem cfg m (.ev (.fire k r))).seen := seenOf f2
+    cases hq : reqGet ({ st with env := env } : St) k with
+    | none =>
+      rw [hq] at f6
+      have hs : step cfg st env (.fire k r) = ({ st with env := env }, [.badOp "fireReq"]) := by
+        simp [step, fuel, runActs, exec, hq]
+      rw [hs]
+      have hr : Rel cfg ({ st with env := env } : St) [] (stepItem cfg m (.ev (.fire k r))) :=
+        hI'.rel.start rfl rfl f6.1 f1 f3 (by rw [f4]; exact hI.rel.fails.symm) hseen rfl
+      refine ⟨hr.plain (by simp [Ob.rel11]) rfl rfl rfl rfl, lateOk_of_none ?_⟩
+      rw [(foldl_frame cfg _ _).2.2.2]; exact f6.2
+    | some q =>
+      rw [hq] at f6
+      cases hp : q.pending
+      · simp only [hp, Bool.false_eq_true, if_false] at f6
+        rw [step_late_reply cfg st env k r q hq hp]
+        have hr : Rel cfg ({ st with env := env } : St) [] (stepItem cfg m (.ev (.fire k r))) :=
+          hI'.rel.start rfl rfl f6.1 f1 f3 (by rw [f4]; exact hI.rel.fails.symm) hseen rfl
+        have hstep : stepOb cfg (stepItem cfg m (.ev (.fire k r))) (.late k) =
+            { stepItem cfg m (.ev (.fire k r)) with nobs := (stepItem cfg m (.ev (.fire k r))).nobs + 1 } := by
+          simp only [stepOb]
+          rw [show ({ stepItem cfg m (.ev (.fire k r)) with nobs := (stepItem cfg m (.ev (.fire k r))).nobs + 1 } : MSt).lateOf =
+            (stepItem cfg m (.ev (.fire k r))).lateOf from rfl, f6.2.1]
+          simp
+        simp only [List.foldl_cons, List.foldl_nil, hstep]
+        refine ⟨⟨hr.reqs, hr.now, hr.owed, hr.dot, hr.seen, hr.fails⟩, ?_⟩
+        unfold LateOk
+        show (match (stepItem cfg m (.ev (.fire k r))).lateOf with | some _ => (stepItem cfg m (.ev (.fire k r))).nobs + 1 = 1 | none => True)
+        rw [f6.2.1, f6.2.2]
+      · simp only [hp, if_true] at f6
+        revert hfuel; simp only [step]; intro hf
+        refine ⟨fire_pending_rel cfg h0 h1 _ k r q _ hI.inv hq hp f6.1 (by rw [f1]; exact hI.rel.now) f3 f4 hseen hna hf, lateOk_of_none ?_⟩
+        rw [(foldl_frame cfg _ _).2.2.2]; exact f6.2
+
+/-- no step of the run reports that the interpreter ran out of fuel -/
+def NoFuel (cfg : Cfg) : St → List (Env × Ev) → Prop
+  | _, [] => True
+  | st, (env, e) :: rest => Ob.badOp "fuel" ∉ (step cfg st env e).2 ∧ NoFuel cfg (step cfg st env e).1 rest
+
+theorem step_sound (cfg : Cfg) (h0 : 0 ≤ cfg.timeout) (h1 : 0 ≤ cfg.retryDelay) (st : St) (env : Env) (e : Ev) (m : MSt)
+    (hI : StepInv cfg st m) (hfuel : Ob.badOp "fuel" ∉ (step cfg st env e).2) :
+    StepInv cfg (step cfg st env e).1
+      (([TItem.ev e] ++ (step cfg st env e).2.map TItem.ob ++
+        [TItem.dump (step cfg st env e).1.cache, TItem.timers ((step cfg st env e).1.timers.map (fun t => (t.what, t.due)))]).foldl
+          (stepItem cfg) m) := by
+  obtain ⟨hrel, hlate⟩ := step_core cfg h0 h1 st env e m hI hfuel
+  have hinv := step_inv cfg st env e hI.inv
+  have hno : NotOverdue (step cfg st env e).1 := by
+    by_cases hadv : ∃ dt, e = .advance dt
+    · obtain ⟨dt, rfl⟩ := hadv
+      by_cases hdt : dt < 0
+      · have : (step cfg st env (.advance dt)).1 = { st with env := env } := by simp [step, hdt]
+        rw [this]; exact hI.nover
+      · rcases step_advance_exit cfg st env dt (Rat.not_lt.mp hdt) hI.inv with h | h
+        · intro t ht; exact Rat.le_of_lt (h t ht)
+        · exact absurd h hfuel
+    · exact step_notOverdue cfg h0 h1 st env e (fun dt hh => hadv ⟨dt, hh⟩) hI.nover
+  simp only [List.foldl_append, List.foldl_cons, List.foldl_nil, foldl_obs_items]
+  exact tail_ok cfg _ _ hrel hinv hno hlate
+
+theorem StepInv.init (cfg : Cfg) : StepInv cfg {} {} := by
+  refine ⟨⟨rfl, rfl, List.Perm.refl _, fun h => absurd rfl h, ?_, rfl⟩, NInv.init, ?_, trivial⟩
+  · intro x hx; cases hx
+  · intro t ht; cases ht
+
+/-- the monitor, fed the model's own trace, stays related to the model's state -/
+theorem trace_sound (cfg : Cfg) (h0 : 0 ≤ cfg.timeout) (h1 : 0 ≤ cfg.retryDelay) :
+    ∀ (evs : List (Env × Ev)) (st : St) (m : MSt), StepInv cfg st m → NoFuel cfg st evs →
+    StepInv cfg (evs.foldl (fun s e => (step cfg s e.1 e.2).1) st) ((traceOf cfg st evs).foldl (stepItem cfg) m)
+  | [], st, m, hI, _ => by simpa [traceOf] using hI
+  | (env, e) :: rest, st, m, hI, hnf => by
+    obtain ⟨hf, hnf'⟩ := hnf
+    have hs := step_sound cfg h0 h1 st env e m hI hf
+    have := trace_sound cfg h0 h1 rest _ _ hs hnf'
+    simp only [traceOf, List.foldl_cons]
+    rw [List.foldl_append]
+    exact this
+
+/-- **Soundness of the C11 monitor (core rules) for the model**: every trace of the client model from the
+    initial state, for every sequence of events and environment answers, is accepted - provided the
+    timeouts are non-negative and no step exhausts the interpreter's fuel. -/
+theorem monitor_accepts_model (cfg : Cfg) (h0 : 0 ≤ cfg.timeout) (h1 : 0 ≤ cfg.retryDelay) (evs : List (Env × Ev))
+    (hnf : NoFuel cfg {} evs) : Afkak.Monitor.C11.ok cfg (traceOf cfg {} evs) = true := by
+  have hI := trace_sound cfg h0 h1 evs {} {} (StepInv.init cfg) hnf
+  have howed : ((traceOf cfg {} evs).foldl (stepItem cfg) {}).owedDisc = [] :=
+    List.Perm.eq_nil (by simpa [stackDisc] using hI.rel.owed)
+  obtain ⟨e1, _⟩ := endStep_core _ howed hI.late
+  unfold Afkak.Monitor.C11.ok Afkak.Monitor.C11.run
+  rw [e1, hI.rel.fails]; rfl
+
 end Afkak.ClientNet
